@@ -9,6 +9,8 @@ CFG = {
         "Leptos.Park.Chan.C19_channel_one_shot",
         "Leptos.Park.Chan.C19_linearizable_outcomes",
         "Leptos.Park.Await.C19_await_no_lost_wake",
+        "Leptos.Park.Await.C19_await_parked_in_wakers",
+        "Leptos.Park.Await.C19_await_no_lost_wake_reloads",
         "Leptos.Park.Await.C19_await_ready_after_store",
         "Leptos.Park.Await.C19_await_lost_wake_witness",
         "Leptos.Park.Await.C19_await_lost_wake_witness_value",
@@ -24,6 +26,8 @@ CFG = {
         "Leptos.Park.Graph.C19_graph_clear_releases_own_lock",
         "Leptos.Park.Graph.C19_graph_check_sees_cross_thread_dirty",
         "Leptos.Park.Graph.C19_graph_torn_read_witness",
+        "Leptos.Park.Graph.C19_derived_needs_rerun_atomic",
+        "Leptos.Park.Graph.C19_derived_dirty_during_check",
         "Leptos.Park.Graph.C19_graph_no_lock_across_notify",
         "Leptos.Park.Graph.C19_graph_deadlock_free",
         "Leptos.Park.Graph.holdsOk_exec",
@@ -38,7 +42,7 @@ CFG = {
     ],
     "harness_pkg": "hx-c19",
     "harness_bin": "c19",
-    "n": {"quick": 10500, "thorough": 80000},
+    "n": {"quick": 12500, "thorough": 100000},
     "exhaustive": {"quick": False, "thorough": False},
     "trivial_tags": ["plain"],
     "rule": "a case = one scenario + one interleaving (list of thread ids) replayed on real OS threads driven in lock-step through the "
@@ -47,7 +51,10 @@ CFG = {
             "get||set, set;get||get (<=400 sampled in quick, all 1716 in thorough), get||hold;set;drop (<=400 / 3003), 5 signal read/write pairs, notify_subs||notify_subs (126) and update||await (3 x 10); "
             "memo GRAPHS (diamond zero/plus1/sum of seed r2-3, coarse/base, chains, 2-level sums: Check arm with several sources, mark_dirty/mark_check propagation, "
             "every reactivity lock acquisition a micro-step) under ~2000 seeded random schedules over 12 shapes x programs (20000 in thorough), gated at the memo:* points "
-            "incl. memo:cleared/memo:unlocked and at sources:clearing; 3-thread notify_subs (250 / 3000 random); single-thread ImmediateEffect on a memo / chain / diamond (42 programs); thorough adds "
+            "incl. memo:cleared/memo:unlocked and at sources:clearing; 3-thread notify_subs (250 / 3000 random); single-thread ImmediateEffect on a memo / chain / diamond (42 programs); "
+            "the await path across RELOADS with 2-3 awaiters and late re-polls (`awaitr`, 900 / 12000 random schedules over 6 configurations, all three future kinds); "
+            "an async derived over a memo source + a directly read signal, its task pre-empted inside needs_rerun's source check at the memo:* points while other threads "
+            "write either signal / read the memos (`derived`, 800 / 12000 random schedules over 8 shapes x programs, final value = from-scratch); thorough adds "
             "await value/ref with 2 awaiters (2 x 4200) and channel 2x2 notifies (34650); the rest are seeded random schedules over larger configurations "
             "(up to 3 awaiters / 3 senders / 2 memo threads with 1-3 ops) and a few free-running effect stress runs (testing only, watchdog); "
             "distinct = distinct op line; every case is non-trivial (tags = scenario family)",
@@ -64,7 +71,7 @@ CFG = {
         "channel::Sender::notify / Receiver::poll_next (+ task loop)", "MemoInner::update_if_necessary, ArcMemo::try_read_untracked, mark_dirty",
         "ArcRwSignal get/set/write guard (Plain::try_new = try_read)",
         "memo graphs: needs_update Check arm, clear_sources/SourceSet::clear_sources, Track::track, inner_2, mark_dirty/mark_check/mark_subscribers_check with their locks",
-        "ArcAsyncDerived::notify_subs state save/restore (Notifying)", "AsyncDerived{,Ref}Future::poll (false, Pending) arm vs Write::try_write (blocking_write)",
+        "ArcAsyncDerived::notify_subs state save/restore (Notifying)", "the async derived's task loop (rx.next, ArcAsyncDerivedInner::needs_rerun, fetcher run) with mark_dirty/mark_check from other threads", "reloads (loading.store(true), next fetcher) on the await path", "AsyncDerived{,Ref}Future::poll (false, Pending) arm vs Write::try_write (blocking_write)",
     ],
     "assumptions": [
         "one step = the code between two yield points; interleavings inside a step (e.g. inside ArcRwSignal::set) are not enumerated — the free-running stress covers them only as testing",
